@@ -130,6 +130,7 @@ MUTANTS: Dict[str, List[M]] = {
         ("Dict arm writes in place", "_typehints.py", "        else:\n            val = val.copy()\n        if subtypehints is not None:\n            if subtypehints[0] == int:", "        if subtypehints is not None:\n            if subtypehints[0] == int:", "C08.a"),
     ],
     "C09": [
+        ("TYPE_CHECKING names shared by all visitors again", "_postponed_annotations.py", "    def __init__(self) -> None:\n        self.type_checking_names: List[str] = []\n", "    type_checking_names: List[str] = []\n", "C09.c"),
         ("config files are parsed while a print_config request can be served", "_actions.py", "), skip_apply_links(), _ActionPrintConfig.skip_print_config():", "), skip_apply_links():", "C09.b"),
         ("print_config request survives --help", "_core.py", "        except SystemExit:\n            _ActionPrintConfig.discard_print_config_request(self)\n            raise\n", "", "C09.b"),
         ("shared skip set grows", "_typehints.py", '            kwargs["skip"] = {*kwargs.get("skip", set()), skip_args}', '            kwargs.setdefault("skip", set()).add(skip_args)', "C09.c"),
